@@ -324,6 +324,42 @@ def run(p, led, tier):
     else:
         led.ok("C08-R6", key, where(runm_, runm_.node), f"{n6} two-request histories from OPEN over {len(G)} gates × 5 probe outcomes (cache on): after an admitted probe the next request is consulted unless the breaker re-opened")
 
+    # ---------------- R3b the outcome is recorded whatever the user's on_block / on_permit listeners do (they may raise)
+    led.rule("C08-R3b", "an outcome that counts (failure / success) has reached its recorder by the time run() returns or raises, also when an on_block / on_permit listener raises", 1)
+    bad3b, n3b = [], 0
+    for g in G:
+        for z, y, want in (("FAILURE", "PERMIT", "failure"), (EXC, "PERMIT", "failure"), ("EXECUTE", "PERMIT", "success")):
+            def go3b(o, _g=g, _z=z, _y=y):
+                it, obj = h.build(o, _g, True, False, "CLOSED", (_z, _y))
+                for fld in ("on_block", "on_permit"):
+                    if fld in obj.fields:
+                        obj.fields[fld] = Unknown(fld)
+                mark = len(it.events)
+                try:
+                    r = it.call_fi(runm_, [obj, Unknown("user_prompt")], {})
+                    return dict(kind="return", events=it.events[mark:], blocked=r.fields.get("blocked") if isinstance(r, Obj) else None)
+                except PyRaise as e:
+                    return dict(kind="raise", exc=repr(e.exc), events=it.events[mark:])
+            try:
+                outs3b = [r for _, r in explore(go3b, max_paths=200)]
+            except Imprecise as e:
+                raise AnchorError(f"run() with listeners could not be interpreted: {e}")
+            plain = [r for r in explore(lambda o: h.run_once(o, g, True, False, "CLOSED", (z, y)), max_paths=64)]
+            counted = any(out["results"][0]["events"].count(h.CALL[want]) == 1 for _, out in plain if out["results"][0]["kind"] == "return")
+            if not counted:
+                continue          # under this gate logic the cell is not a counted outcome of that kind
+            for r in outs3b:
+                n3b += 1
+                nrec = r["events"].count(h.CALL[want])
+                if r["kind"] == "raise" and "on_" in r.get("exc", "") and nrec != 1:
+                    bad3b.append(f"gate {g}, executor {z}: the listener raised and the {want} recorder had run {nrec}× — the outcome is lost for the breaker")
+    key = "run ▸ counted outcomes are recorded before (or despite) the user's listeners"
+    if bad3b:
+        led.fail("C08-R3b", key, where(runm_, runm_.node), sorted(set(bad3b))[0], path=sorted(set(bad3b))[:6],
+                 witness="failure_threshold=3, an on_block listener that raises: three executor failures leave the breaker CLOSED with failure_count 0")
+    else:
+        led.ok("C08-R3b", key, where(runm_, runm_.node), f"{n3b} path(s) over {len(G)} gates × 3 counted outcomes with on_block / on_permit that return or raise")
+
     # ---------------- R5 the loop's own lock is never re-acquired while held (every request returns)
     from ..locks import LockAnalysis, regions
     from ..resolve import Resolver
